@@ -1,11 +1,11 @@
 SPECIFICATION Spec
 CONSTANTS
-  DeliverPhase = "end"
+  DeliverPhase = "start"
   ImrVals <- ImrSmall
-  MaxDepth = 7
+  MaxDepth <- Unlimited
   MaxNest = 2
-  PcMod = 0
-  AckOnReturn = FALSE
+  PcMod = 2
+  AckOnReturn = TRUE
   RecordActs = FALSE
 INVARIANT DeliverOnlyIfEnabled
 INVARIANT FrameOnEntry
